@@ -82,6 +82,12 @@ class Cipher:
 
 def user_key(key_obj, password):
     kdf = key_obj['kdf']
+    if kdf['name'] == 'blake2b':
+        # README: BLAKE2b as "KDF": keyed BLAKE2b of the (empty) context, salted with the stored parameters, keyed with the key material
+        try:
+            return hashlib.blake2b(b'', salt=key_obj['kdf_params'], digest_size=kdf['length'], key=password).digest()
+        except ValueError as e:
+            raise FormatError('blake2b kdf: %s' % e) from e
     if kdf['name'] != 'scrypt':
         raise FormatError('unknown user kdf %r' % kdf['name'])
     return Scrypt(salt=key_obj['kdf_params'], length=kdf['length'], n=kdf.get('n', 1 << 20),
